@@ -84,16 +84,17 @@ def build_all(need_go=True):
     try:
         # 1. Go: harness + translator, always rebuilt from /repo's working tree (go's build cache keeps it cheap)
         shutil.copyfile(os.path.join(REPO, 'go.sum'), os.path.join(TOOLS, 'go.sum'))
-        rc, out, _ = sh(['go', 'build', '-tags', TAGS, '-o', os.path.join(BUILD, 'harness'), './cmd/harness'], cwd=TOOLS, env=GOENV, timeout=900)
-        b.go_log += out
         rc2, out2, _ = sh(['go', 'build', '-tags', TAGS, '-o', os.path.join(BUILD, 'extract'), './cmd/extract'], cwd=TOOLS, env=GOENV, timeout=900)
         b.go_log += out2
-        b.go_ok = (rc == 0 and rc2 == 0)
         # 2. translator -> coq/gen/*.v  (write-if-changed inside the tool)
         if rc2 == 0:
-            rc, out, _ = sh([os.path.join(BUILD, 'extract'), '-repo', REPO, '-out', os.path.join(COQ, 'gen'), '-params', os.path.join(BUILD, 'params.json')], cwd=TOOLS, env=GOENV, timeout=600)
+            rc, out, _ = sh([os.path.join(BUILD, 'extract'), '-repo', REPO, '-out', os.path.join(COQ, 'gen'), '-params', os.path.join(BUILD, 'params.json'), '-stubs', os.path.join(TOOLS, 'internal', 'stubs')], cwd=TOOLS, env=GOENV, timeout=600)
             b.gen_ok = rc == 0
             b.gen_log = out
+        # harness (after the translator: it compiles the generated handler stubs)
+        rc, out, _ = sh(['go', 'build', '-tags', TAGS, '-o', os.path.join(BUILD, 'harness'), './cmd/harness'], cwd=TOOLS, env=GOENV, timeout=900)
+        b.go_log += out
+        b.go_ok = (rc == 0 and rc2 == 0)
         # 3. Coq
         if not os.path.exists(os.path.join(COQ, 'Makefile')) or os.path.getmtime(os.path.join(COQ, 'Makefile')) < os.path.getmtime(os.path.join(COQ, '_CoqProject')):
             sh('coq_makefile -f _CoqProject -o Makefile', cwd=COQ)
